@@ -19,3 +19,40 @@ let register () =
         (match VerifyIndex.verify_index Sha256.h_model (n_of_string n) (bytes_of_hex file) idx with
          | Some true -> "true" | Some false -> "false" | None -> "NONE")
     | _ -> "ERR args")
+
+(* c17.ptrace <nworkers> <njobs> <events>
+   events: T:w:k  O:w:k  F:w:k  X:w  C:0|1  K   (take, ok, fail, exit, feeder close(interrupted), cancel)
+   Answer: "ok <final 0|1> <nil|err|int> <fed> <processed>" | "FAIL <position>" *)
+let () =
+  let nat s = nat_of_int (int_of_string s) in
+  let parse (t : string) : PoolTrace.pev =
+    match Stdlib.String.split_on_char ':' t with
+    | ["T"; w; k] -> PoolTrace.PTake (nat w, nat k)
+    | ["O"; w; k] -> PoolTrace.POk (nat w, nat k)
+    | ["F"; w; k] -> PoolTrace.PFail (nat w, nat k)
+    | ["X"; w] -> PoolTrace.PExit (nat w)
+    | ["C"; b] -> PoolTrace.PClose (b = "1")
+    | ["K"] -> PoolTrace.PCancel
+    | _ -> failwith ("bad event " ^ t) in
+  Drv.register "c17.ptrace" (fun args -> match args with
+    | [nw; nj; evs] ->
+        let tr = if evs = "-" then [] else Stdlib.List.map parse (Stdlib.String.split_on_char ',' evs) in
+        let njobs = nat nj in
+        let job_ok = PoolTrace.trace_job_ok tr in
+        let rec go pos s early = function
+          | [] -> if early = [] then Ok s else Error pos
+          | e :: r -> (match PoolTrace.apply_ev njobs job_ok e r s early with
+                       | Some ((s1, e1), _) -> go (pos + 1) s1 e1 r
+                       | None -> Error pos) in
+        (match go 0 (Pool.init (nat nw)) [] tr with
+         | Error pos -> "FAIL " ^ string_of_int pos
+         | Ok s ->
+             (* the same through [replay], whose result the theorem speaks about *)
+             (match PoolTrace.replay njobs job_ok tr (Pool.init (nat nw)) [] with
+              | None -> "FAIL replay"
+              | Some (s2, _) ->
+                  if s2 <> s then "FAIL replay-differs" else
+                  "ok " ^ (if Pool.final s then "1" else "0") ^ " " ^
+                  (match Pool.pool_result s with Pool.RNil -> "nil" | Pool.RErr -> "err" | Pool.RInterrupted -> "int") ^ " " ^
+                  string_of_int (int_of_nat s.Pool.fed) ^ " " ^ string_of_int (Stdlib.List.length s.Pool.processed)))
+    | _ -> "ERR args")
